@@ -78,9 +78,45 @@ def handle (line : String) : String :=
       let mcy := nearestMargin castQ osC (cy * ac) (gridLen hc osC - 1)
       let outs := (pts.zip out.pts).map fun ((p, _), o) =>
         ptStr osI ai out.tl (gridLen wi osI) (gridLen hi osI) p o
+      -- "crop contains the keypoint for every admissible centroid estimate" (e = half a centroid cell + ¼ crop px)
+      let e : Rat := (osC : Rat) / 2 / c.sc.toR castQ + (1 / 4) / c.si.toR castQ
+      let cOk := centroidInRange castQ c eff (gridLen wc osC) cx && centroidInRange castQ c eff (gridLen hc osC) cy
+      let rob := pts.map fun (p, _) =>
+        match p with
+        | some (x, y) =>
+          if cOk && robustAxis castQ c cropW (gridLen wi osI) eff e (cx * eff) x
+                && robustAxis castQ c cropH (gridLen hi osI) eff e (cy * eff) y then "1" else "0"
+        | none => "-"
       pure (s!"ok {hc} {wc} {hi} {wi} {ratStr eff} {ccx} {ccy} {omStr mcx} {omStr mcy} " ++
         s!"{ratStr out.tl.1} {ratStr out.tl.2} {ratStr out.bboxTL.1} {ratStr out.bboxTL.2} " ++
-        " ".intercalate outs)
+        " ".intercalate outs ++ " | " ++ " ".intercalate rob)
+    match runP p rest with
+    | some s => s
+    | none => "bad-op"
+  | "gtc" :: rest =>
+    let p : P String := do
+      let sin ← nat; let sid ← nat; let osI ← nat; let msI ← nat
+      let cropH ← nat; let cropW ← nat
+      let maxH ← onat; let maxW ← onat; let H ← nat; let W ← nat
+      let cx ← rat; let cy ← rat
+      let pts ← listOf kp
+      let c : TopDownCfg := { sc := ⟨1, 1⟩, osC := 1, msC := 1, si := ⟨sin, sid⟩, osI := osI,
+                              msI := msI, cropH := cropH, cropW := cropW, maxH := maxH, maxW := maxW }
+      let eff : Rat := effScale castQ H W maxH maxW
+      let (hi, wi) := instanceInputShape c
+      let nx := gridLen wi osI
+      let ny := gridLen hi osI
+      let tlx := cropTL castQ c cropW (cx * eff)
+      let tly := cropTL castQ c cropH (cy * eff)
+      let ai : Rat := eff * c.si.toR castQ
+      let head := pts.map fun (p, δ) =>
+        ptStr osI ai (tlx, tly) nx ny p (p.map fun (x, y) =>
+          (gtcCoord castQ c eff cropW nx cx x δ.1, gtcCoord castQ c eff cropH ny cy y δ.2))
+      let asis := pts.map fun (p, δ) =>
+        match p with
+        | some (x, y) => s!"{ratStr (gtcCoordAsIs castQ c eff cropW nx cx x δ.1)} {ratStr (gtcCoordAsIs castQ c eff cropH ny cy y δ.2)}"
+        | none => "nan nan"
+      pure (s!"ok {hi} {wi} {ratStr eff} {ratStr tlx} {ratStr tly} " ++ " ".intercalate head ++ " | " ++ " ".intercalate asis)
     match runP p rest with
     | some s => s
     | none => "bad-op"
